@@ -171,7 +171,8 @@ def case(chk, i):
                 # it must still be named at use sites
             text = res["files"].get("bindings.rs", "")
             for bn in bnames:
-                used_in_c = any(direct_container(rr, {bn}) for rr in named if rr.rust_name not in bnames)
+                # (a container that is itself opaque or blocklisted in this selection does not show its members)
+                used_in_c = any(direct_container(rr, {bn}) for rr in named if rr.rust_name not in bnames and rr.rust_name not in onames)
                 if used_in_c and not re.search(r"[:\s\[<(]%s[\s;,>\])]" % re.escape(bn), text.split(raw[-1])[-1] if raw else text):
                     problems.append("blocklisted %s is used by value in C but never named in the bindings" % bn)
             for on in onames:
